@@ -178,7 +178,12 @@ impl Stats {
             }
         }
         for (k, n) in o.counters {
-            *self.counters.entry(k).or_insert(0) += n;
+            let e = self.counters.entry(k.clone()).or_insert(0);
+            if k.starts_with("max_") {
+                *e = (*e).max(n);
+            } else {
+                *e += n;
+            }
         }
         for s in o.samples {
             if self.samples.len() < 3 {
@@ -378,7 +383,8 @@ pub fn shard_or_spawn(cmd: &str, args: &Args) -> Option<(u64, u64)> {
         if let Some(o) = s["counters"].as_object() {
             for (k, v) in o {
                 let cur = m["counters"].get(k).and_then(|x| x.as_u64()).unwrap_or(0);
-                m["counters"][k] = Value::from(cur + v.as_u64().unwrap_or(0));
+                let n = v.as_u64().unwrap_or(0);
+                m["counters"][k] = Value::from(if k.starts_with("max_") { cur.max(n) } else { cur + n });
             }
         }
         if let Some(o) = s["extra"].as_object() {
